@@ -114,7 +114,7 @@ type eng struct {
 	byAddr map[common.Address]int
 	labels map[string]bool
 
-	rlReg, rlRem, svReg, svRem int // number of accepted requests so far = next request id
+	rlReg, rlRem, svReg, svRem int                            // number of accepted requests so far = next request id
 	pm                         map[string]node_manager.Status // the harness's own pool bookkeeping: key string -> status
 	persist                    bool
 }
